@@ -103,11 +103,11 @@ def run(tier, seed):
         base.append((n, s, [x for x in a if not x.startswith('-O')]))
     if quick:
         base = [b for i, b in enumerate(base) if i % 4 == 0 or b[0].startswith('corpus/')]
-    g_items, _ = c01.gen_items(rng, 10 if quick else 80, c01.FEATURES | {'raw'}, levels=('-O1',))
+    g_items, _ = c01.gen_items(rng, 20 if quick else 80, c01.FEATURES | {'raw'}, levels=('-O1',))
     base += [(n, s, []) for n, s, a in g_items]
     for fam, fn in (('expr', lambda s: genprog.gen_expr_program(s, wide=True)[1]), ('lit', lambda s: genprog.gen_literal_program(s)[1]),
                     ('macro', lambda s: genprog.gen_macro_program(s)[1]), ('case', lambda s: genprog.gen_case_program(s, False)[1])):
-        for i in range((10 if fam == 'expr' else 2) if quick else 30):
+        for i in range((10 if fam == 'expr' else 4) if quick else 30):
             s = rng.randrange(1 << 30)
             base.append(('%s:%d' % (fam, s), fn(s), []))
     # yield / end programs only make sense with their flag: those rows are forced
@@ -117,7 +117,7 @@ def run(tier, seed):
     meta = []
     for bi, (n, s, a) in enumerate(base):
         # every row is used by some program; each program is compiled under 6 (quick) / 40 (thorough) of them, round-robin
-        use_rows = [rows[(bi * 7 + k) % len(rows)] for k in range(6 if quick else min(40, len(rows)))]
+        use_rows = [rows[(bi * 7 + k) % len(rows)] for k in range(8 if quick else min(40, len(rows)))]
         for row in use_rows:
             args = list(a) + [x for x in row_args(row) if x not in a]
             meta.append((n, s, args, row))
@@ -140,7 +140,7 @@ def run(tier, seed):
             r = res[i]
             # EOF and yield support are semantic options (e.g. $last may not be used where end-of-input can trigger the action):
             # the verdict is compared among the rows that agree on them
-            vkey = (s, '-feof-support' in args, '-fyield-support' in args)
+            vkey = (s, '-feof-support' in args, '-fyield-support' in args, tuple(x for x in args if x.startswith('-O')))       # (unreachable states are only checked at -O0)
             verdicts[vkey].add(r.get('outcome') if r.get('outcome') == 'code' else (r.get('outcome'), r.get('errclass')))
             if r.get('outcome') in ('internal_error', 'timeout'):
                 chk.violation('compiler crashed on %s %s: %s %s' % (n, args, r.get('errclass'), (r.get('msg') or '')[:200]),
@@ -159,7 +159,7 @@ def run(tier, seed):
         shutil.rmtree(root, ignore_errors=True)
     # representation option rows must not change the verdict of a program
     nverd = 0
-    for (s, _eof, _yld), vs in verdicts.items():
+    for (s, _eof, _yld, _lvl), vs in verdicts.items():
         if len(vs) > 1 and 'code' in vs:
             nverd += 1
             others = [v for v in vs if v != 'code']
